@@ -44,7 +44,7 @@ C27  Control.tla transcribes control.proto (Proto), pubSubscribe/pubUnsubscribe/
      FINDINGS (unchanged tree, need regenerated protobuf code => known findings, exact signatures):
        subscribe:option:RecoveryMode  subscribe:option:AutoCacheRecover  subscribe:option:HistoryMetaTTL
        subscribe:field:ServerTagsFilter   (no With... constructor; a custom SubscribeOption closure sets the field)
-     Mutations (scratch worktrees /tmp/cluster-n*): see MUTATIONS_C27 below.
+     Mutations: see MUTATIONS_C27 below.
 
 C41  Survey.tla: registry, response channel of capacity numNodes, eager collector, deadline, the window between the
      collector's end and the registry delete, sync / async / absent local answer, responses in any order with
@@ -59,10 +59,33 @@ C41  Survey.tla: registry, response channel of capacity numNodes, eager collecto
      channel before the registry entry is deleted, then the asynchronous local SurveyCallback blocks forever (leaked
      application goroutine; no effect on the control reader or other surveys).  Fix: spec/Cluster/c41.fix.diff
      (non-blocking send in the local callback, as handleSurveyResponse already does).
-     Mutations (on top of the fix, /tmp/cluster-k*): see MUTATIONS_C41 below.
+     Mutations: see MUTATIONS_C41 below.
 
-MUTATIONS_C27 / MUTATIONS_C41: filled from the runs, see bottom of this docstring.
-@@MUTATIONS@@
+MUTATIONS_C27 (scratch worktrees /tmp/cluster-n*, from /repo HEAD; "caught" = exit 1 with a signature other than the
+four known ones), all 12 caught:
+  n1  pubSubscribe drops ChannelInfo                          -> subscribe:option:ChannelInfo
+  n2  pubSubscribe drops ExpireAt                             -> subscribe:option:ExpireAt
+  n3  pubSubscribe drops Session                              -> subscribe:option:Session
+  n4  handleControl swaps client / session id (subscribe)     -> subscribe:unattributed:touched+... (options [Client])
+  n5  remote disconnect loses the custom reason               -> disconnect:unattributed:custom (code 4100 / "force disconnect")
+  n6  remote refresh ignores Expired                          -> refresh:option:Expired
+  n7  pubUnsubscribe drops the label filter                   -> unsubscribe:option:LabelFilter
+  n8  pubDisconnect drops the whitelist                       -> disconnect:option:Whitelist
+  n9  handleControl builds PushJoinLeave from emit_join_leave -> subscribe:option:PushJoinLeave / EmitJoinLeave (pushjl)
+  n10 pubRefresh drops all_users                              -> refresh:option:AllUsers
+  n11 remote unsubscribe always uses the default code         -> unsubscribe:unattributed:custom
+  n12 Source loses its lowest bit on decode                   -> subscribe:option:Source
+  (first version of the harness returned on the wire-field drift before comparing local/remote and missed n1-n3, n7,
+   n8, n10: the verdict is now computed first.)
+MUTATIONS_C41 (on top of c41.fix.diff, /tmp/cluster-k*), all 7 caught (exit 1):
+  k1 a duplicate answer counts as a new node (counter instead of len(results))   -> early-return
+  k2 blocking send in handleSurveyResponse (default case removed)                 -> handle-control-blocks:dropped
+  k3 results keyed by the receiving node's uid                                    -> result:missing
+  k4 a response with an unknown id is handed to any in-flight survey              -> result:extra
+  k5 deadline ignored while nothing was collected                                 -> no-return:deadline
+  k6 off by one: complete with numNodes-1 answers                                 -> early-return
+  k7 registry entry deleted before collecting                                     -> unregistered-while-collecting
+Not detectable with the chosen values (documented limit): a lost / altered epoch of RecoverSince.
 """
 import re
 
